@@ -256,3 +256,124 @@ Example reach_witness :
   exists l, reach c_ex [([97]%N, true, false)] 2 [([[97]]%N, [])] = Some l /\
             In ([[120]; [97]]%N, [0]) l /\ length l = 24.
 Proof. eexists. split; [vm_compute; reflexivity|]. split; [vm_compute; tauto | reflexivity]. Qed.
+
+(** ** grapheme mode with the segmenter inside the model ([segment], UAX29_Model.v).
+    [edit_word] counts the exclusion set in the clusters of the pieces it glues together. The
+    cluster-level theorems above are statements about the segmentation of the NEW word exactly
+    when that cluster list re-segments to itself, and this is decided by the seams of the edit. *)
+From TU Require Import UAX29_Model C10_Seam C15_Seam C15_UAX29.
+
+(** the chain condition of the edited word is the (one to three) seams of the edit *)
+Theorem edit_seams_chain : forall k w,
+  C10_Seam.chain w = true -> C10_Seam.chain (ed_str k) = true ->
+  C10_Seam.chain (apply_word k w) = edit_seams k w.
+Proof. exact edit_seams_spec. Qed.
+Print Assumptions edit_seams_chain.
+
+(** SeamStable for one edit, exactly: for a word and an edit string that are segmentations of
+    their texts, the edited cluster list is the segmentation of the new text iff the seams are glued *)
+Theorem edit_stable_iff : forall k w,
+  segment (concat w) = w -> segment (concat (ed_str k)) = ed_str k ->
+  (segment (concat (apply_word k w)) = apply_word k w <-> edit_seams k w = true).
+Proof. exact edit_stable_iff_l. Qed.
+Print Assumptions edit_stable_iff.
+
+(** one call on the word [x] (a string): every outcome is one valid edit of [segment x], and the
+    returned word re-segments to the clusters the returned exclusion set is counted in iff the
+    seams of that edit are glued *)
+Theorem one_edit_u : forall c cd cs x ex l o,
+  tabs_ok c = true ->
+  outcomes c cd cs (segment x) ex = Some l -> In o l ->
+  exists k, valid_ed c (segment x) ex k /\ o = (apply_word k (segment x), apply_excl k ex)
+            /\ (segment (concat (fst o)) = fst o <-> edit_seams k (segment x) = true).
+Proof. exact one_edit_u_l. Qed.
+Print Assumptions one_edit_u.
+
+(** ... and then the exclusion set is re-indexed correctly w.r.t. [segment] of the NEW word [x']:
+    protected characters reappear unchanged at the shifted positions, which are not written and
+    protected again; new set = shifted old set + written positions; it stays inside the new word;
+    the new cluster count is the old one adjusted by the edit *)
+Theorem excl_reindexed_u : forall c x ex k,
+  tabs_ok c = true -> valid_ed c (segment x) ex k -> edit_seams k (segment x) = true ->
+  let x' := concat (apply_word k (segment x)) in
+  (forall p, In p ex -> p < length (segment x) ->
+     nth_error (segment x') (shift_of k p) = nth_error (segment x) p
+     /\ ~ In (shift_of k p) (new_pos k) /\ In (shift_of k p) (apply_excl k ex))
+  /\ (forall y, In y (apply_excl k ex) <-> (exists p, In p ex /\ y = shift_of k p) \/ In y (new_pos k))
+  /\ (in_range (segment x) ex -> in_range (segment x') (apply_excl k ex))
+  /\ len_spec k (length (segment x)) (length (segment x')).
+Proof. exact excl_reindexed_u_l. Qed.
+Print Assumptions excl_reindexed_u.
+
+(** one call, exactly: every (word, exclusion set) the call can return has a word that is the
+    segmentation of its text iff every edit the call can make has glued seams ([call_safe]:
+    decidable from the word, the tables, the predicates and the exclusion set) *)
+Theorem call_stable_iff : forall c cd cs w ex l,
+  tabs_ok c = true -> segment (concat w) = w -> outcomes c cd cs w ex = Some l ->
+  (call_safe c cd cs w ex = true <-> forall o, In o l -> segment (concat (fst o)) = fst o).
+Proof. exact call_stable_iff_l. Qed.
+Print Assumptions call_stable_iff.
+
+(** [edit_safe c w] — all clusters of the word and of the edit strings the enabled kinds can
+    draw are clusters on their own and glued in every order — is a condition on the input alone
+    under which every valid edit has glued seams ... *)
+Theorem edit_safe_seams : forall c w ex k,
+  tabs_ok c = true -> segment (concat w) = w ->
+  edit_safe c w = true -> valid_ed c w ex k -> edit_seams k w = true.
+Proof. exact C15_UAX29.edit_safe_seams. Qed.
+Print Assumptions edit_safe_seams.
+
+(** ... and every word along every chain of calls is the segmentation of its text. Sufficient,
+    not necessary (hence [_partial]): it also asks for orders of clusters no edit produces *)
+Theorem chain_stable_partial : forall c n w ex s',
+  edit_safe c w = true -> C15_Model.chain c n (w, ex) s' -> segment (concat (fst s')) = fst s'.
+Proof. exact chain_stable_l. Qed.
+Print Assumptions chain_stable_partial.
+
+(** the text-level membership the runner compares is the cluster-level one of [check_run] when
+    the word is edit-safe and the returned clusters are the model's segmentation (the grapheme-mode
+    counterpart of [cp_agree_strict]) ... *)
+Theorem agree_text_strict_u : forall c s wv exv,
+  edit_safe c (s_w s) = true -> seg_ok (v_cls wv) = true ->
+  step_agree false c s (L [wv; exv]) = true -> step_agree true c s (L [wv; exv]) = true.
+Proof. exact step_agree_u. Qed.
+Print Assumptions agree_text_strict_u.
+
+(** ... so for a whole case: text-level agreement + the segmentation clause give the executable statement *)
+Theorem check_run_u : forall v out,
+  in_g15 v = true ->
+  forallb (fun s => edit_safe (v_cfg v) (s_w s)) (v_steps v) = true ->
+  C15_Seam.uax29_agree v out = true -> agree_C15 false v out = true ->
+  agree_C15 true v out = true /\ check_C15 v out = true.
+Proof. exact agree_u_l. Qed.
+Print Assumptions check_run_u.
+
+(** the KF1-seam class through the model: a text-level explanation [k] of a returned pair has the
+    real clusters of the returned word as its cluster list iff that list is a chain — the class
+    ("explained as text, but by no candidate whose clusters are the real ones") is "no explaining
+    candidate is a chain" *)
+Theorem kf1_seam_class : forall c s w' ex' k,
+  tabs_ok c = true -> seg_ok (s_w s) = true -> seg_ok w' = true ->
+  In k (all_cands c (s_w s)) ->
+  expl_text (s_w s) (s_ex s) w' ex' k = true ->
+  (C10_Seam.chain (apply_word k (s_w s)) = true <-> apply_word k (s_w s) = w').
+Proof. exact expl_chain_stable. Qed.
+Print Assumptions kf1_seam_class.
+
+(** non-vacuity. "ab" with the tables of [c_ex] is edit-safe; the KF1-seam witnesses are edits
+    whose seams are not glued: "e" + U+0301 inserted; 🇩x🇪 with x deleted; a ZWJ swapped behind
+    a letter in front of an emoji *)
+Example edit_safe_witness : tabs_ok c_ex = true /\ edit_safe c_ex [[97]; [98]]%N = true.
+Proof. vm_compute. split; reflexivity. Qed.
+Example kf1_seam_witness :
+  edit_seams (EIns 1 [[769]%N]) [[101]]%N = false
+  /\ segment (concat (apply_word (EIns 1 [[769]%N]) [[101]]%N)) = [[101; 769]]%N
+  /\ edit_seams (EDel 1) [[127465]; [120]; [127466]]%N = false
+  /\ edit_seams (ESwap 0) [[8205]; [97]; [128187]]%N = false
+  /\ edit_seams (ESwap 0) [[97]; [128187]]%N = true.
+Proof. vm_compute. repeat split; reflexivity. Qed.
+Example edit_seams_witness :
+  edit_seams (EIns 1 [[101; 769]%N]) [[97]; [98]]%N = true
+  /\ edit_seams (ERep 0 [[127462; 127463]%N]) [[97]; [127464]]%N = true
+  /\ edit_seams (ERep 0 [[127462]%N]) [[97]; [127464]]%N = false.
+Proof. vm_compute. repeat split; reflexivity. Qed.
